@@ -41,14 +41,18 @@ def under_contract(repo_src=SRC):
         for ent in u.get('opaque', []):
             cov.setdefault((ent[0], ent[1]), []).append((f[:-5], 'opaque'))
     return cov
+def kani_covers():
+    try: return {k: v for k, v in json.load(open(os.path.join(ROOT, 'kani', 'covers.json'))).items() if not k.startswith('_')}
+    except (OSError, ValueError): return {}
 def report(files):
-    cov = under_contract(); res = {'verified': 0, 'opaque_only': 0, 'not_under_contract': []}
+    cov = under_contract(); res = {'verified': 0, 'opaque_only': 0, 'kani_complete_only': 0, 'not_under_contract': []}; kc = kani_covers()
     for rel in files:
         rel = rel.replace('datasketches/src/', '')
         for name, line in fns_of_file(SRC + rel):
             st = cov.get((rel, name)) or cov.get((rel, name.split('::')[-1]))
             if st and any(k == 'verified' for _, k in st): res['verified'] += 1
             elif st: res['opaque_only'] += 1
+            elif any(re.search(e['fn'], name) for e in kc.get(rel, [])): res['kani_complete_only'] += 1
             else: res['not_under_contract'].append('%s:%d %s' % (rel, line, name))
     return res
 if __name__ == '__main__':
